@@ -13,8 +13,19 @@ def Written (log : List Obs) (rid : Nat) : Prop := ∃ conn, Obs.write conn rid 
     write of the request that caused it -/
 def Ordered : List Obs → Prop
   | [] => True
-  | Obs.publish rid _ :: rest => Written rest rid ∧ Ordered rest
-  | _ :: rest => Ordered rest
+  | Obs.publish (some rid) _ :: rest => Written rest rid ∧ Ordered rest
+  | Obs.publish none _ :: rest => Ordered rest
+  | Obs.write _ _ :: rest => Ordered rest
+  | Obs.cipher _ _ :: rest => Ordered rest
+
+theorem Ordered.tail {o : Obs} {rest : List Obs} (h : Ordered (o :: rest)) : Ordered rest := by
+  cases o with
+  | publish c t =>
+    cases c with
+    | none => exact h
+    | some r => exact h.2
+  | write c r => exact h
+  | cipher c r => exact h
 
 theorem Written.cons {log : List Obs} {rid : Nat} (o : Obs) (h : Written log rid) :
     Written (o :: log) rid := by
@@ -22,7 +33,7 @@ theorem Written.cons {log : List Obs} {rid : Nat} (o : Obs) (h : Written log rid
   exact ⟨c, List.mem_cons_of_mem _ hc⟩
 
 theorem Ordered.split {log : List Obs} (h : Ordered log) :
-    ∀ later earlier rid txt, log = later ++ Obs.publish rid txt :: earlier → Written earlier rid := by
+    ∀ later earlier rid txt, log = later ++ Obs.publish (some rid) txt :: earlier → Written earlier rid := by
   induction log with
   | nil => intro later earlier rid txt e; simp at e
   | cons o rest ih =>
@@ -35,20 +46,16 @@ theorem Ordered.split {log : List Obs} (h : Ordered log) :
     | cons o' later' =>
       simp only [List.cons_append, List.cons.injEq] at e
       obtain ⟨rfl, e⟩ := e
-      have hr : Ordered rest := by
-        cases o with
-        | publish r t => exact h.2
-        | write c r => exact h
-        | cipher c r => exact h
-      exact ih hr later' earlier rid txt e
+      exact ih h.tail later' earlier rid txt e
 
 /-- the ordering invariant -/
 structure Good (s : Sys) : Prop where
   execW : ∀ rid ∈ s.execQ, Written s.log rid
-  loopW : ∀ rid ∈ s.loopQ, Written s.log rid
+  loopW : ∀ rid, some rid ∈ s.loopQ → Written s.log rid
   ord : Ordered s.log
 
-theorem good_init (info : Info) (p : Pairings) (ss : List (Nat × Client)) : Good (init info p ss) :=
+theorem good_init (info : Info) (p : Pairings) (ss : List (Nat × Client)) (safe : Bool := false) :
+    Good (init info p ss safe) :=
   ⟨by simp [init], by simp [init], by simp [init, Ordered]⟩
 
 /-- a response that reports a pairing change is never a deferred one -/
@@ -138,26 +145,56 @@ theorem good_step (s : Sys) (st : Step) (h : Good s) : Good (step s st) := by
       · intro x hx
         exact h.execW x ((List.eraseIdx_sublist _ _).mem hx)
       · intro x hx
-        simp only [List.mem_append, List.mem_singleton] at hx
-        rcases hx with hx | rfl
-        · exact h.loopW x hx
-        · exact h.execW x (List.mem_of_getElem? hd)
+        cases hsm : s.safeMode
+        · simp only [hsm, Bool.false_eq_true, if_false, List.mem_append, List.mem_singleton,
+            Option.some.injEq] at hx
+          rcases hx with hx | rfl
+          · exact h.loopW x hx
+          · exact h.execW x (List.mem_of_getElem? hd)
+        · simp only [hsm, if_true] at hx
+          exact h.loopW x hx
   | loopRun i =>
     simp only [step]
     cases hd : s.loopQ[i]? with
     | none => exact h
-    | some rid =>
-      have hw : Written s.log rid := h.loopW rid (List.mem_of_getElem? hd)
-      refine ⟨?_, ?_, ⟨hw, h.ord⟩⟩
-      · intro x hx; exact (h.execW x hx).cons _
-      · intro x hx; exact (h.loopW x ((List.eraseIdx_sublist _ _).mem hx)).cons _
+    | some cause =>
+      have hl : ∀ x, some x ∈ s.loopQ.eraseIdx i → Written (Obs.publish cause (record s) :: s.log) x :=
+        fun x hx => (h.loopW x ((List.eraseIdx_sublist _ _).mem hx)).cons _
+      have he : ∀ x ∈ s.execQ, Written (Obs.publish cause (record s) :: s.log) x :=
+        fun x hx => (h.execW x hx).cons _
+      cases cause with
+      | none => exact ⟨he, hl, h.ord⟩
+      | some rid =>
+        have hw : Written s.log rid := h.loopW rid (List.mem_of_getElem? hd)
+        exact ⟨he, hl, ⟨hw, h.ord⟩⟩
+  | configChanged =>
+    simp only [step]
+    refine ⟨h.execW, ?_, h.ord⟩
+    intro x hx
+    simp only [List.mem_append, List.mem_singleton] at hx
+    rcases hx with hx | hx
+    · exact h.loopW x hx
+    · cases hx
+  | appRefresh =>
+    simp only [step]
+    refine ⟨h.execW, ?_, h.ord⟩
+    intro x hx
+    simp only [List.mem_append, List.mem_singleton] at hx
+    rcases hx with hx | hx
+    · exact h.loopW x hx
+    · cases hx
+  | appUnpair c =>
+    simp only [step]
+    split
+    · exact h.congr rfl rfl rfl
+    · exact h
 
 theorem good_run (s : Sys) (steps : List Step) (h : Good s) : Good (run s steps) := by
   induction steps generalizing s with
   | nil => exact h
   | cons st rest ih => exact ih _ (good_step s st h)
 
-/-! ## the advertised flag follows the pairing state -/
+/-! ## the advertised record follows the state -/
 
 def sfFor (p : Pairings) : Option String := some (if p.isEmpty then "1" else "0")
 
@@ -165,12 +202,20 @@ theorem record_sf (s : Sys) : lookup "sf" (record s) = sfFor s.paired := by
   unfold record sfFor
   cases h : s.paired.isEmpty <;> simp [advertData, lookup]
 
-theorem initialSf_eq (info : Info) (p : Pairings) : initialSf info p = sfFor p := by
-  unfold initialSf; rw [record_sf]; rfl
+theorem record_cfg (s : Sys) : lookup "c#" (record s) = some (toString s.info.cfg) := by
+  simp [record, advertData, lookup]
 
-/-- no refresh is pending, or the advertiser holds the flag of the current pairing state -/
-def Track (sf0 : Option String) (s : Sys) : Prop :=
-  (s.execQ ≠ [] ∨ s.loopQ ≠ []) ∨ advertisedSf sf0 s.log = sfFor s.paired
+/-- the record depends on the pairing table only through "is anybody paired" -/
+theorem record_eq {s s' : Sys} (hi : s'.info = s.info) (hp : s'.paired.isEmpty = s.paired.isEmpty) :
+    record s' = record s := by
+  unfold record; rw [hi, hp]
+
+theorem initialRecord_eq (info : Info) (p : Pairings) (ss : List (Nat × Client)) :
+    initialRecord info p = record (init info p ss) := rfl
+
+/-- a refresh is pending, or the advertiser holds the record of the current state -/
+def Track (r0 : List (String × String)) (s : Sys) : Prop :=
+  (s.execQ ≠ [] ∨ s.loopQ ≠ []) ∨ advertised r0 s.log = record s
 
 theorem pr_execQ (s : Sys) (c rid : Nat) (r : Resp) :
     (processResponse s c rid r).execQ = if r.pairingChanged then s.execQ ++ [rid] else s.execQ := by
@@ -185,8 +230,12 @@ theorem pr_paired (s : Sys) (c rid : Nat) (r : Resp) : (processResponse s c rid 
   unfold processResponse
   cases r.task <;> cases r.sharedKey <;> cases r.pairingRemoved <;> cases r.pairingChanged <;> rfl
 
-theorem pr_adv (sf0 : Option String) (s : Sys) (c rid : Nat) (r : Resp) :
-    advertisedSf sf0 (processResponse s c rid r).log = advertisedSf sf0 s.log := by
+theorem pr_info (s : Sys) (c rid : Nat) (r : Resp) : (processResponse s c rid r).info = s.info := by
+  unfold processResponse
+  cases r.task <;> cases r.sharedKey <;> cases r.pairingRemoved <;> cases r.pairingChanged <;> rfl
+
+theorem pr_adv (r0 : List (String × String)) (s : Sys) (c rid : Nat) (r : Resp) :
+    advertised r0 (processResponse s c rid r).log = advertised r0 s.log := by
   unfold processResponse
   cases r.task <;> cases r.sharedKey <;> cases r.pairingRemoved <;> cases r.pairingChanged <;> rfl
 
@@ -240,10 +289,18 @@ theorem handle_unchanged (p : Pairings) (s : Option Client) (r : Req)
   | resource => simp [handle]
   | other => simp [handle]
 
-theorem sfFor_congr {p q : Pairings} (h : p.isEmpty = q.isEmpty) : sfFor p = sfFor q := by
-  simp [sfFor, h]
+/-- a pairing-changing response never carries a session key (so the early `return` of the
+    smuggled-plaintext branch in `_process_response` cannot skip a refresh) -/
+theorem handle_changed_not_sharedKey (p : Pairings) (ss : Option Client) (r : Req) :
+    (handle p ss r).2.pairingChanged = true → (handle p ss r).2.sharedKey = false := by
+  cases r <;> simp only [handle, plain] <;> (repeat' split) <;> simp
 
-theorem track_step (sf0 : Option String) (s : Sys) (st : Step) (h : Track sf0 s) : Track sf0 (step s st) := by
+def Step.isAppUnpair : Step → Bool
+  | .appUnpair _ => true
+  | _ => false
+
+theorem track_step (r0 : List (String × String)) (s : Sys) (st : Step) (hst : st.isAppUnpair = false)
+    (hsm : s.safeMode = false) (h : Track r0 s) : Track r0 (step s st) := by
   cases st with
   | request conn r =>
     simp only [step]
@@ -251,10 +308,14 @@ theorem track_step (sf0 : Option String) (s : Sys) (st : Step) (h : Track sf0 s)
     · simp only [hc, if_true]; exact h
     · simp only [hc, Bool.false_eq_true, if_false]
       unfold Track
-      rw [pr_execQ, pr_loopQ, pr_adv, pr_paired]
+      rw [pr_execQ, pr_loopQ, pr_adv]
       cases hp : (handle s.paired (sessionOf s conn) r).2.pairingChanged
       · simp only [Bool.false_eq_true, if_false]
-        rw [sfFor_congr (handle_unchanged s.paired (sessionOf s conn) r hp)]
+        have e : record (processResponse
+            { s with paired := (handle s.paired (sessionOf s conn) r).1, nextRid := s.nextRid + 1 }
+            conn s.nextRid (handle s.paired (sessionOf s conn) r).2) = record s :=
+          record_eq (by rw [pr_info]) (by rw [pr_paired]; exact handle_unchanged s.paired (sessionOf s conn) r hp)
+        rw [e]
         exact h
       · simp
   | taskDone i =>
@@ -270,47 +331,105 @@ theorem track_step (sf0 : Option String) (s : Sys) (st : Step) (h : Track sf0 s)
     simp only [step]
     cases hd : s.execQ[i]? with
     | none => exact h
-    | some rid => exact Or.inl (Or.inr (by simp))
+    | some rid => exact Or.inl (Or.inr (by simp [hsm]))
   | loopRun i =>
     simp only [step]
     cases hd : s.loopQ[i]? with
     | none => exact h
-    | some rid => exact Or.inr (by simp [advertisedSf, record_sf])
+    | some rid => exact Or.inr rfl
+  | configChanged => exact Or.inl (Or.inr (by simp [step]))
+  | appRefresh => exact Or.inl (Or.inr (by simp [step]))
+  | appUnpair c => simp [Step.isAppUnpair] at hst
 
-theorem track_run (sf0 : Option String) (s : Sys) (steps : List Step) (h : Track sf0 s) :
-    Track sf0 (run s steps) := by
-  induction steps generalizing s with
-  | nil => exact h
-  | cons st rest ih => exact ih _ (track_step sf0 s st h)
-
-theorem track_init (info : Info) (p : Pairings) (ss : List (Nat × Client)) :
-    Track (initialSf info p) (init info p ss) :=
-  Or.inr (by simp [init, advertisedSf, initialSf_eq])
-
-
-/-! ## request identifiers are fresh -/
-
-def Obs.rid : Obs → Nat
-  | .write _ r => r
-  | .cipher _ r => r
-  | .publish r _ => r
-
-/-- every identifier mentioned anywhere belongs to a request that was already dispatched -/
-structure Fresh (s : Sys) : Prop where
-  log : ∀ o ∈ s.log, o.rid < s.nextRid
-  deferred : ∀ d ∈ s.deferred, d.2 < s.nextRid
-  execQ : ∀ r ∈ s.execQ, r < s.nextRid
-  loopQ : ∀ r ∈ s.loopQ, r < s.nextRid
-
-theorem fresh_init (info : Info) (p : Pairings) (ss : List (Nat × Client)) : Fresh (init info p ss) :=
-  ⟨by simp [init], by simp [init], by simp [init], by simp [init]⟩
-
-theorem pr_nextRid (s : Sys) (c rid : Nat) (r : Resp) : (processResponse s c rid r).nextRid = s.nextRid := by
+theorem pr_safeMode (s : Sys) (c rid : Nat) (r : Resp) : (processResponse s c rid r).safeMode = s.safeMode := by
   unfold processResponse
   cases r.task <;> cases r.sharedKey <;> cases r.pairingRemoved <;> cases r.pairingChanged <;> rfl
 
-theorem pr_mem_log (s : Sys) (c rid : Nat) (r : Resp) (o : Obs)
-    (h : o ∈ (processResponse s c rid r).log) : o ∈ s.log ∨ o.rid = rid := by
+/-- nothing in a trace changes the `safe_mode` switch -/
+theorem step_safeMode (s : Sys) (st : Step) : (step s st).safeMode = s.safeMode := by
+  cases st with
+  | request conn r =>
+    simp only [step]
+    split
+    · rfl
+    · rw [pr_safeMode]
+  | taskDone i =>
+    simp only [step]
+    split
+    · rfl
+    · split <;> rfl
+  | execRun i => simp only [step]; split <;> rfl
+  | loopRun i => simp only [step]; split <;> rfl
+  | configChanged => rfl
+  | appRefresh => rfl
+  | appUnpair c => simp only [step]; split <;> rfl
+
+theorem run_safeMode (s : Sys) (steps : List Step) : (run s steps).safeMode = s.safeMode := by
+  induction steps generalizing s with
+  | nil => rfl
+  | cons st rest ih => exact (ih _).trans (step_safeMode s st)
+
+theorem track_run (r0 : List (String × String)) (s : Sys) (steps : List Step)
+    (hst : ∀ st ∈ steps, st.isAppUnpair = false) (hsm : s.safeMode = false) (h : Track r0 s) :
+    Track r0 (run s steps) := by
+  induction steps generalizing s with
+  | nil => exact h
+  | cons st rest ih =>
+    exact ih _ (fun x hx => hst x (List.mem_cons_of_mem _ hx)) ((step_safeMode s st).trans hsm)
+      (track_step r0 s st (hst st List.mem_cons_self) hsm h)
+
+theorem track_init (info : Info) (p : Pairings) (ss : List (Nat × Client)) :
+    Track (initialRecord info p) (init info p ss) :=
+  Or.inr rfl
+
+theorem run_append (s : Sys) (a b : List Step) : run s (a ++ b) = run (run s a) b := by
+  induction a generalizing s with
+  | nil => rfl
+  | cons st rest ih => exact ih _
+
+/-- an explicit refresh request re-establishes the tracking invariant from *any* state -/
+theorem track_refresh (r0 : List (String × String)) (s : Sys) : Track r0 (step s .appRefresh) :=
+  Or.inl (Or.inr (by simp [step]))
+
+/-! ## the configuration number and the static fields of every published record -/
+
+theorem bump_range (n : Nat) : 1 ≤ bump n ∧ bump n ≤ 65535 := incr_range _
+
+theorem bump_wrap : bump 65535 = 1 := by decide
+
+theorem bump_succ (n : Nat) (h : n < 65535) : bump n = n + 1 := by
+  simp only [bump, incr, MAX_CONFIG_VERSION]
+  have : ¬ (n + 1 > 65535) := by omega
+  simp [this]
+
+/-- `txt` is the TXT record of the accessory `i0` (name, category, mac, setup hash) with some
+    configuration number in 1..65535 and some pairing flag -/
+def RecOk (i0 : Info) (txt : List (String × String)) : Prop :=
+  ∃ n p, 1 ≤ n ∧ n ≤ 65535 ∧ txt = advertData { i0 with cfg := n, paired := p }
+
+/-- static identity kept, configuration number in range, every published record well-formed -/
+structure Pub (i0 : Info) (s : Sys) : Prop where
+  ident : s.info.display = i0.display ∧ s.info.category = i0.category ∧ s.info.mac = i0.mac ∧
+    s.info.setupHash = i0.setupHash
+  cfg : 1 ≤ s.info.cfg ∧ s.info.cfg ≤ 65535
+  log : ∀ c txt, Obs.publish c txt ∈ s.log → RecOk i0 txt
+
+theorem pub_init (info : Info) (p : Pairings) (ss : List (Nat × Client))
+    (h : 1 ≤ info.cfg ∧ info.cfg ≤ 65535) (safe : Bool := false) : Pub info (init info p ss safe) :=
+  ⟨⟨rfl, rfl, rfl, rfl⟩, h, by simp [init]⟩
+
+theorem record_recOk {i0 : Info} {s : Sys} (h : Pub i0 s) : RecOk i0 (record s) := by
+  refine ⟨s.info.cfg, !s.paired.isEmpty, h.cfg.1, h.cfg.2, ?_⟩
+  obtain ⟨h1, h2, h3, h4⟩ := h.ident
+  unfold record
+  congr 1
+  cases hi : s.info
+  cases i0
+  simp_all
+
+theorem pr_mem_log' (s : Sys) (c rid : Nat) (r : Resp) (o : Obs)
+    (h : o ∈ (processResponse s c rid r).log) :
+    o ∈ s.log ∨ o = Obs.write c rid ∨ o = Obs.cipher c rid := by
   unfold processResponse at h
   revert h
   cases r.task <;> cases r.sharedKey <;> cases r.pairingRemoved <;> cases r.pairingChanged <;>
@@ -318,12 +437,93 @@ theorem pr_mem_log (s : Sys) (c rid : Nat) (r : Resp) (o : Obs)
     first
       | exact Or.inl h
       | (rcases h with rfl | h
-         · exact Or.inr rfl
+         · first | exact Or.inr (Or.inl rfl) | exact Or.inr (Or.inr rfl)
          · first
             | exact Or.inl h
             | (rcases h with rfl | h
-               · exact Or.inr rfl
+               · first | exact Or.inr (Or.inl rfl) | exact Or.inr (Or.inr rfl)
                · exact Or.inl h))
+
+theorem pub_step (i0 : Info) (s : Sys) (st : Step) (h : Pub i0 s) : Pub i0 (step s st) := by
+  cases st with
+  | request conn r =>
+    simp only [step]
+    by_cases hc : isClosed s conn = true
+    · simp only [hc, if_true]; exact h
+    · simp only [hc, Bool.false_eq_true, if_false]
+      refine ⟨by rw [pr_info]; exact h.ident, by rw [pr_info]; exact h.cfg, ?_⟩
+      intro c txt hm
+      rcases pr_mem_log' _ _ _ _ _ hm with hm | hm | hm
+      · exact h.log c txt hm
+      · cases hm
+      · cases hm
+  | taskDone i =>
+    simp only [step]
+    cases hd : s.deferred[i]? with
+    | none => exact h
+    | some cr =>
+      obtain ⟨conn, rid⟩ := cr
+      by_cases hc : isClosed s conn = true
+      · simp only [hc, if_true]; exact ⟨h.ident, h.cfg, h.log⟩
+      · simp only [hc, Bool.false_eq_true, if_false]
+        refine ⟨h.ident, h.cfg, ?_⟩
+        intro c txt hm
+        simp only [List.mem_cons] at hm
+        rcases hm with hm | hm
+        · cases hm
+        · exact h.log c txt hm
+  | execRun i =>
+    simp only [step]
+    cases hd : s.execQ[i]? with
+    | none => exact h
+    | some rid => exact ⟨h.ident, h.cfg, h.log⟩
+  | loopRun i =>
+    simp only [step]
+    cases hd : s.loopQ[i]? with
+    | none => exact h
+    | some cause =>
+      refine ⟨h.ident, h.cfg, ?_⟩
+      intro c txt hm
+      simp only [List.mem_cons, Obs.publish.injEq] at hm
+      rcases hm with ⟨_, rfl⟩ | hm
+      · exact record_recOk h
+      · exact h.log c txt hm
+  | configChanged =>
+    simp only [step]
+    exact ⟨h.ident, bump_range _, h.log⟩
+  | appRefresh => exact ⟨h.ident, h.cfg, h.log⟩
+  | appUnpair c =>
+    simp only [step]
+    split
+    · exact ⟨h.ident, h.cfg, h.log⟩
+    · exact h
+
+theorem pub_run (i0 : Info) (s : Sys) (steps : List Step) (h : Pub i0 s) : Pub i0 (run s steps) := by
+  induction steps generalizing s with
+  | nil => exact h
+  | cons st rest ih => exact ih _ (pub_step i0 s st h)
+
+/-! ## request identifiers are fresh -/
+
+def Obs.rid : Obs → Option Nat
+  | .write _ r => some r
+  | .cipher _ r => some r
+  | .publish c _ => c
+
+/-- every identifier mentioned anywhere belongs to a request that was already dispatched -/
+structure Fresh (s : Sys) : Prop where
+  log : ∀ o ∈ s.log, ∀ r, o.rid = some r → r < s.nextRid
+  deferred : ∀ d ∈ s.deferred, d.2 < s.nextRid
+  execQ : ∀ r ∈ s.execQ, r < s.nextRid
+  loopQ : ∀ r, some r ∈ s.loopQ → r < s.nextRid
+
+theorem fresh_init (info : Info) (p : Pairings) (ss : List (Nat × Client)) (safe : Bool := false) :
+    Fresh (init info p ss safe) :=
+  ⟨by simp [init], by simp [init], by simp [init], by simp [init]⟩
+
+theorem pr_nextRid (s : Sys) (c rid : Nat) (r : Resp) : (processResponse s c rid r).nextRid = s.nextRid := by
+  unfold processResponse
+  cases r.task <;> cases r.sharedKey <;> cases r.pairingRemoved <;> cases r.pairingChanged <;> rfl
 
 theorem pr_mem_deferred (s : Sys) (c rid : Nat) (r : Resp) (d : Nat × Nat)
     (h : d ∈ (processResponse s c rid r).deferred) : d ∈ s.deferred ∨ d.2 = rid := by
@@ -350,12 +550,13 @@ theorem fresh_processResponse (s : Sys) (conn : Nat) (r : Resp) (p : Pairings) (
     Fresh (processResponse { s with paired := p, nextRid := s.nextRid + 1 } conn s.nextRid r) := by
   obtain ⟨h1, h2, h3, h4⟩ := h
   refine ⟨?_, ?_, ?_, ?_⟩
-  · intro o ho
+  · intro o ho x hx
     rw [pr_nextRid]
-    rcases pr_mem_log _ _ _ _ _ ho with ho | ho
-    · exact Nat.lt_succ_of_lt (h1 o ho)
-    · show o.rid < s.nextRid + 1
-      omega
+    show x < s.nextRid + 1
+    rcases pr_mem_log' _ _ _ _ _ ho with ho | rfl | rfl
+    · exact Nat.lt_succ_of_lt (h1 o ho x hx)
+    · simp only [Obs.rid, Option.some.injEq] at hx; omega
+    · simp only [Obs.rid, Option.some.injEq] at hx; omega
   · intro d hd
     rw [pr_nextRid]
     rcases pr_mem_deferred _ _ _ _ _ hd with hd | hd
@@ -392,11 +593,13 @@ theorem fresh_step (s : Sys) (st : Step) (h : Fresh s) : Fresh (step s st) := by
         exact ⟨h.log, fun d hd' => h.deferred d ((List.eraseIdx_sublist _ _).mem hd'), h.execQ, h.loopQ⟩
       · simp only [hc, Bool.false_eq_true, if_false]
         refine ⟨?_, ?_, h.execQ, h.loopQ⟩
-        · intro o ho
+        · intro o ho x hx
           simp only [List.mem_cons] at ho
           rcases ho with rfl | ho
-          · exact h.deferred (conn, rid) (List.mem_of_getElem? hd)
-          · exact h.log o ho
+          · simp only [Obs.rid, Option.some.injEq] at hx
+            subst hx
+            exact h.deferred (conn, rid) (List.mem_of_getElem? hd)
+          · exact h.log o ho x hx
         · intro d hd'
           exact h.deferred d ((List.eraseIdx_sublist _ _).mem hd')
   | execRun i =>
@@ -407,27 +610,243 @@ theorem fresh_step (s : Sys) (st : Step) (h : Fresh s) : Fresh (step s st) := by
       refine ⟨h.log, h.deferred, ?_, ?_⟩
       · intro x hx; exact h.execQ x ((List.eraseIdx_sublist _ _).mem hx)
       · intro x hx
-        simp only [List.mem_append, List.mem_singleton] at hx
-        rcases hx with hx | rfl
-        · exact h.loopQ x hx
-        · exact h.execQ x (List.mem_of_getElem? hd)
+        cases hsm : s.safeMode
+        · simp only [hsm, Bool.false_eq_true, if_false, List.mem_append, List.mem_singleton,
+            Option.some.injEq] at hx
+          rcases hx with hx | rfl
+          · exact h.loopQ x hx
+          · exact h.execQ x (List.mem_of_getElem? hd)
+        · simp only [hsm, if_true] at hx
+          exact h.loopQ x hx
   | loopRun i =>
     simp only [step]
     cases hd : s.loopQ[i]? with
     | none => exact h
-    | some rid =>
+    | some cause =>
       refine ⟨?_, h.deferred, h.execQ, ?_⟩
-      · intro o ho
+      · intro o ho x hx
         simp only [List.mem_cons] at ho
         rcases ho with rfl | ho
-        · exact h.loopQ rid (List.mem_of_getElem? hd)
-        · exact h.log o ho
+        · simp only [Obs.rid] at hx
+          subst hx
+          exact h.loopQ x (List.mem_of_getElem? hd)
+        · exact h.log o ho x hx
       · intro x hx; exact h.loopQ x ((List.eraseIdx_sublist _ _).mem hx)
+  | configChanged =>
+    simp only [step]
+    refine ⟨h.log, h.deferred, h.execQ, ?_⟩
+    intro x hx
+    simp only [List.mem_append, List.mem_singleton] at hx
+    rcases hx with hx | hx
+    · exact h.loopQ x hx
+    · cases hx
+  | appRefresh =>
+    simp only [step]
+    refine ⟨h.log, h.deferred, h.execQ, ?_⟩
+    intro x hx
+    simp only [List.mem_append, List.mem_singleton] at hx
+    rcases hx with hx | hx
+    · exact h.loopQ x hx
+    · cases hx
+  | appUnpair c =>
+    simp only [step]
+    split
+    · exact ⟨h.log, h.deferred, h.execQ, h.loopQ⟩
+    · exact h
 
 theorem fresh_run (s : Sys) (steps : List Step) (h : Fresh s) : Fresh (run s steps) := by
   induction steps generalizing s with
   | nil => exact h
   | cons st rest ih => exact ih _ (fresh_step s st h)
 
+/-! ## a response is written on the connection its request arrived on -/
+
+theorem pr_mem_deferred' (s : Sys) (c rid : Nat) (r : Resp) (d : Nat × Nat)
+    (h : d ∈ (processResponse s c rid r).deferred) : d ∈ s.deferred ∨ d = (c, rid) := by
+  unfold processResponse at h
+  revert h
+  cases r.task <;> cases r.sharedKey <;> cases r.pairingRemoved <;> cases r.pairingChanged <;>
+    simp only [Bool.false_eq_true, if_true, if_false, List.mem_append, List.mem_singleton] <;> intro h <;>
+    first
+      | exact Or.inl h
+      | (rcases h with h | rfl
+         · exact Or.inl h
+         · exact Or.inr rfl)
+
+/-- request `rid` has been dispatched, and whatever is or will be written for it goes to `conn` -/
+structure Own (conn rid : Nat) (s : Sys) : Prop where
+  lt : rid < s.nextRid
+  log : ∀ c, Obs.write c rid ∈ s.log → c = conn
+  deferred : ∀ d ∈ s.deferred, d.2 = rid → d.1 = conn
+
+theorem own_request (s : Sys) (conn : Nat) (r : Req) (hf : Fresh s) (hc : isClosed s conn = false) :
+    Own conn s.nextRid (step s (.request conn r)) := by
+  simp only [step, hc, Bool.false_eq_true, if_false]
+  refine ⟨by rw [pr_nextRid]; exact Nat.lt_succ_self _, ?_, ?_⟩
+  · intro c h
+    rcases pr_mem_log' _ _ _ _ _ h with h | h | h
+    · exact absurd (hf.log _ h s.nextRid rfl) (Nat.lt_irrefl _)
+    · simp only [Obs.write.injEq] at h; exact h.1
+    · cases h
+  · intro d hd he
+    rcases pr_mem_deferred' _ _ _ _ _ hd with hd | hd
+    · exact absurd (he ▸ hf.deferred d hd) (Nat.lt_irrefl _)
+    · rw [hd]
+
+theorem own_step (conn rid : Nat) (s : Sys) (st : Step) (h : Own conn rid s) : Own conn rid (step s st) := by
+  cases st with
+  | request conn' r =>
+    simp only [step]
+    by_cases hc : isClosed s conn' = true
+    · simp only [hc, if_true]; exact h
+    · simp only [hc, Bool.false_eq_true, if_false]
+      refine ⟨by rw [pr_nextRid]; exact Nat.lt_succ_of_lt h.lt, ?_, ?_⟩
+      · intro c hm
+        rcases pr_mem_log' _ _ _ _ _ hm with hm | hm | hm
+        · exact h.log c hm
+        · simp only [Obs.write.injEq] at hm
+          exact absurd h.lt (by rw [hm.2]; exact Nat.lt_irrefl _)
+        · cases hm
+      · intro d hd he
+        rcases pr_mem_deferred' _ _ _ _ _ hd with hd | hd
+        · exact h.deferred d hd he
+        · rw [hd] at he
+          exact absurd h.lt (by rw [← he]; exact Nat.lt_irrefl _)
+  | taskDone i =>
+    simp only [step]
+    cases hd : s.deferred[i]? with
+    | none => exact h
+    | some cr =>
+      obtain ⟨conn', rid'⟩ := cr
+      have hsub : ∀ d ∈ s.deferred.eraseIdx i, d.2 = rid → d.1 = conn :=
+        fun d hd' => h.deferred d ((List.eraseIdx_sublist _ _).mem hd')
+      by_cases hc : isClosed s conn' = true
+      · simp only [hc, if_true]
+        exact ⟨h.lt, h.log, hsub⟩
+      · simp only [hc, Bool.false_eq_true, if_false]
+        refine ⟨h.lt, ?_, hsub⟩
+        intro c hm
+        simp only [List.mem_cons] at hm
+        rcases hm with hm | hm
+        · simp only [Obs.write.injEq] at hm
+          rw [hm.1]
+          exact h.deferred (conn', rid') (List.mem_of_getElem? hd) hm.2.symm
+        · exact h.log c hm
+  | execRun i =>
+    simp only [step]
+    cases hd : s.execQ[i]? with
+    | none => exact h
+    | some r => exact ⟨h.lt, h.log, h.deferred⟩
+  | loopRun i =>
+    simp only [step]
+    cases hd : s.loopQ[i]? with
+    | none => exact h
+    | some cause =>
+      refine ⟨h.lt, ?_, h.deferred⟩
+      intro c hm
+      simp only [List.mem_cons] at hm
+      rcases hm with hm | hm
+      · cases hm
+      · exact h.log c hm
+  | configChanged => exact ⟨h.lt, h.log, h.deferred⟩
+  | appRefresh => exact ⟨h.lt, h.log, h.deferred⟩
+  | appUnpair c =>
+    simp only [step]
+    split
+    · exact ⟨h.lt, h.log, h.deferred⟩
+    · exact h
+
+theorem own_run (conn rid : Nat) (s : Sys) (steps : List Step) (h : Own conn rid s) :
+    Own conn rid (run s steps) := by
+  induction steps generalizing s with
+  | nil => exact h
+  | cons st rest ih => exact ih _ (own_step conn rid s st h)
+
+/-! ## safe mode: no refresh is ever caused by a request -/
+
+structure Quiet (s : Sys) : Prop where
+  safe : s.safeMode = true
+  loopQ : ∀ r, some r ∉ s.loopQ
+  log : ∀ r txt, Obs.publish (some r) txt ∉ s.log
+
+theorem quiet_init (info : Info) (p : Pairings) (ss : List (Nat × Client)) : Quiet (init info p ss true) :=
+  ⟨rfl, by simp [init], by simp [init]⟩
+
+theorem quiet_step (s : Sys) (st : Step) (h : Quiet s) : Quiet (step s st) := by
+  refine ⟨(step_safeMode s st).trans h.safe, ?_, ?_⟩
+  · cases st with
+    | request conn r =>
+      simp only [step]
+      split
+      · exact h.loopQ
+      · rw [pr_loopQ]; exact h.loopQ
+    | taskDone i =>
+      simp only [step]
+      split
+      · exact h.loopQ
+      · split <;> exact h.loopQ
+    | execRun i =>
+      simp only [step]
+      split
+      · exact h.loopQ
+      · simp only [h.safe, if_true]; exact h.loopQ
+    | loopRun i =>
+      simp only [step]
+      split
+      · exact h.loopQ
+      · intro r hr; exact h.loopQ r ((List.eraseIdx_sublist _ _).mem hr)
+    | configChanged =>
+      intro r hr
+      simp only [step, List.mem_append, List.mem_singleton] at hr
+      rcases hr with hr | hr
+      · exact h.loopQ r hr
+      · cases hr
+    | appRefresh =>
+      intro r hr
+      simp only [step, List.mem_append, List.mem_singleton] at hr
+      rcases hr with hr | hr
+      · exact h.loopQ r hr
+      · cases hr
+    | appUnpair c => simp only [step]; split <;> exact h.loopQ
+  · cases st with
+    | request conn r =>
+      simp only [step]
+      split
+      · exact h.log
+      · intro r' txt hm
+        rcases pr_mem_log' _ _ _ _ _ hm with hm | hm | hm
+        · exact h.log r' txt hm
+        · cases hm
+        · cases hm
+    | taskDone i =>
+      simp only [step]
+      split
+      · exact h.log
+      · split
+        · exact h.log
+        · intro r' txt hm
+          simp only [List.mem_cons] at hm
+          rcases hm with hm | hm
+          · cases hm
+          · exact h.log r' txt hm
+    | execRun i => simp only [step]; split <;> exact h.log
+    | loopRun i =>
+      simp only [step]
+      split
+      · exact h.log
+      · rename_i cause hd
+        intro r' txt hm
+        simp only [List.mem_cons, Obs.publish.injEq] at hm
+        rcases hm with ⟨hc, _⟩ | hm
+        · exact h.loopQ r' (hc ▸ List.mem_of_getElem? hd)
+        · exact h.log r' txt hm
+    | configChanged => exact h.log
+    | appRefresh => exact h.log
+    | appUnpair c => simp only [step]; split <;> exact h.log
+
+theorem quiet_run (s : Sys) (steps : List Step) (h : Quiet s) : Quiet (run s steps) := by
+  induction steps generalizing s with
+  | nil => exact h
+  | cons st rest ih => exact ih _ (quiet_step s st h)
 
 end Hap.AdvertSys
